@@ -39,10 +39,10 @@ CHUNK = 100
 _ENUM = {}
 
 
-def _streams(nfr, senders=1, same_id=True):
+def _streams(nfr, senders=1, same_id=True, types=(33, 65, 2)):
     out = []
     for s in range(senders):
-        out.append({"sender": s, "fid": 7 if same_id else 7 + 11 * s, "type": [33, 65, 2][s % 3], "len": 24 * (nfr if isinstance(nfr, int) else nfr[s]) - 5 - s,
+        out.append({"sender": s, "fid": 7 if same_id else 7 + 11 * s, "type": types[s % 3], "len": 24 * (nfr if isinstance(nfr, int) else nfr[s]) - 5 - s,
                     "seed": 100 + s})
     return out
 
@@ -52,8 +52,9 @@ def _enum(tier):
         return _ENUM[tier]
     cases = []
     maxf = 4 if tier == "quick" else 6
-    for f in range(2, maxf + 1):
-        st = _streams(f)
+    for f, ty in [(f, ty) for f in range(2, maxf + 1) for ty in ((33, 65, 2), (1, 2, 0))]:
+        # message types both above and below the fragment counter's range (the counter lives in the same header byte)
+        st = _streams(f, types=ty)
         # every fragment dropped / once / twice
         for pat in itertools.product((0, 1, 2), repeat=f):
             seq = [[0, k] for k in range(f) for _ in range(pat[k])]
@@ -232,7 +233,7 @@ def _run_a(scn, w, res):
     _judge(res, delivered, sent, scn["kind"])
     res.nontrivial = n_in >= 2
     import hashlib
-    res.isig = hashlib.blake2b(repr((scn["role"], scn["seq"], scn.get("deq"), [(s["fid"], s["len"]) for s in streams])).encode(), digest_size=8).hexdigest()
+    res.isig = hashlib.blake2b(repr((scn["role"], scn["seq"], scn.get("deq"), [(s["fid"], s["len"], s["type"]) for s in streams])).encode(), digest_size=8).hexdigest()
     res.sample = {"layer": "a", "role": [cls, oct(addr)], "kind": scn["kind"], "seq": scn["seq"], "deq": scn.get("deq"),
                   "delivered": [(oct(d[0]), d[1], len(d[2])) for d in delivered]}
 
